@@ -27,6 +27,34 @@ func (i *interpreter) atomicSync(obj *value, store bool) {
 	i.acquire(s.atomics[obj])
 }
 
+// atomicRMW performs an atomic read(-modify-write) on *addr with acquire/release ordering.
+func (i *interpreter) atomicRMW(addr value, f func(value) value, store bool) value {
+	p := addr.(*value)
+	if p == nil {
+		panic(runtimeError("invalid memory address or nil pointer dereference"))
+	}
+	if f != nil {
+		i.logAddr(p)
+		*p = f(*p)
+	}
+	i.atomicSync(p, store)
+	return *p
+}
+
+func (i *interpreter) atomicCAS(addr, old, nw value) value {
+	p := addr.(*value)
+	if p == nil {
+		panic(runtimeError("invalid memory address or nil pointer dereference"))
+	}
+	ok := *p == old
+	if ok {
+		i.logAddr(p)
+		*p = nw
+	}
+	i.atomicSync(p, ok)
+	return ok
+}
+
 func fieldPtr(recv value, field int) (*value, *value) {
 	p := recv.(*value)
 	if p == nil {
@@ -70,6 +98,37 @@ func init() {
 			fr.i.logAddr(f)
 			*f = a[1]
 			fr.i.atomicSync(obj, true)
+			return nil
+		},
+
+		// package-level atomic functions on plain integer variables
+		"sync/atomic.AddInt32":  func(fr *frame, a []value) value { return fr.i.atomicRMW(a[0], func(v value) value { return v.(int32) + a[1].(int32) }, true) },
+		"sync/atomic.AddInt64":  func(fr *frame, a []value) value { return fr.i.atomicRMW(a[0], func(v value) value { return v.(int64) + a[1].(int64) }, true) },
+		"sync/atomic.AddUint32": func(fr *frame, a []value) value { return fr.i.atomicRMW(a[0], func(v value) value { return v.(uint32) + a[1].(uint32) }, true) },
+		"sync/atomic.AddUint64": func(fr *frame, a []value) value { return fr.i.atomicRMW(a[0], func(v value) value { return v.(uint64) + a[1].(uint64) }, true) },
+		"sync/atomic.LoadInt32":  func(fr *frame, a []value) value { return fr.i.atomicRMW(a[0], nil, false) },
+		"sync/atomic.LoadInt64":  func(fr *frame, a []value) value { return fr.i.atomicRMW(a[0], nil, false) },
+		"sync/atomic.LoadUint32": func(fr *frame, a []value) value { return fr.i.atomicRMW(a[0], nil, false) },
+		"sync/atomic.LoadUint64": func(fr *frame, a []value) value { return fr.i.atomicRMW(a[0], nil, false) },
+		"sync/atomic.StoreInt32":  func(fr *frame, a []value) value { fr.i.atomicRMW(a[0], func(value) value { return a[1] }, true); return nil },
+		"sync/atomic.StoreInt64":  func(fr *frame, a []value) value { fr.i.atomicRMW(a[0], func(value) value { return a[1] }, true); return nil },
+		"sync/atomic.StoreUint32": func(fr *frame, a []value) value { fr.i.atomicRMW(a[0], func(value) value { return a[1] }, true); return nil },
+		"sync/atomic.StoreUint64": func(fr *frame, a []value) value { fr.i.atomicRMW(a[0], func(value) value { return a[1] }, true); return nil },
+		"sync/atomic.CompareAndSwapInt32": func(fr *frame, a []value) value { return fr.i.atomicCAS(a[0], a[1], a[2]) },
+		"sync/atomic.CompareAndSwapInt64": func(fr *frame, a []value) value { return fr.i.atomicCAS(a[0], a[1], a[2]) },
+		"(*sync/atomic.Int64).Add": func(fr *frame, a []value) value {
+			_, f := fieldPtr(a[0], 2)
+			return fr.i.atomicRMW(f, func(v value) value { return v.(int64) + a[1].(int64) }, true)
+		},
+		"(*sync/atomic.Int64).Load": func(fr *frame, a []value) value { _, f := fieldPtr(a[0], 2); return fr.i.atomicRMW(f, nil, false) },
+		"(*sync/atomic.Bool).Load":  func(fr *frame, a []value) value { _, f := fieldPtr(a[0], 1); return fr.i.atomicRMW(f, nil, false).(uint32) != 0 },
+		"(*sync/atomic.Bool).Store": func(fr *frame, a []value) value {
+			_, f := fieldPtr(a[0], 1)
+			var n uint32
+			if a[1].(bool) {
+				n = 1
+			}
+			fr.i.atomicRMW(f, func(value) value { return n }, true)
 			return nil
 		},
 
